@@ -26,7 +26,7 @@ SPEC = {
     "model_files": ["InfernoVerif/Model/Ring.lean", "InfernoVerif/Model/RingOps.lean"],
     "driver": "drivers/C01.lean",
     "assumptions": [
-        "offsets are Python ints / int64 tensors (float offsets are truncated by int()/.long(), not generated)",
+        "offsets are Python ints or integer-valued tensors of dtype int64 / int32 / int16 / uint8 / float32 / float64 (fractional float offsets, truncated by int()/.long(), are not generated)",
         "align indices in [0, n) or >= n (negative indices, which the code accepts and stores as a negative pointer, are outside the modelled domain)",
         "readrange/writerange lengths 1..n (the property's quantifier); length 0 or > n on scalar readrange is not validated by the code and is not generated",
         "dtype classes: int64 vs float32; device CPU",
@@ -107,8 +107,12 @@ class Real:
         return torch.stack(rs, dim=-1)
 
     def _offs(self, tok):
-        sh, vs = tok.split(";")
-        return torch.tensor(ints(vs), dtype=torch.int64).reshape(shp(sh))
+        # `shape;values[;dtype]`: the SAME offsets handed over in another tensor dtype (uint8 / int16 / int32 / float) must be
+        # read as the same step counts — `.long()` comes before any arithmetic
+        parts = tok.split(";")
+        sh, vs = parts[0], parts[1]
+        dt = OFF_DTYPES[parts[2]] if len(parts) > 2 else torch.int64
+        return torch.tensor(ints(vs), dtype=dt).reshape(shp(sh))
 
     def _exec(self, tok):
         rt = self.rt
@@ -204,12 +208,31 @@ def range_tok(rng, dt, shape, L):
     return f"{dt};{shp_s(shape)};" + "|".join(rows)
 
 
+OFF_DTYPES = {"u8": torch.uint8, "i16": torch.int16, "i32": torch.int32, "f32": torch.float32, "f64": torch.float64}
+
+
 def offs_tok(rng, shape, lo, hi, const=None):
     P = 1
     for s in shape:
         P *= s
     vals = [const if const is not None else rng.randint(lo, hi) for _ in range(P)]
-    return f"{shp_s(shape)};" + ",".join(map(str, vals))
+    tok = f"{shp_s(shape)};" + ",".join(map(str, vals))
+    if rng.random() < 0.3:
+        kinds = ["i16", "i32", "f32", "f64"] + (["u8", "u8"] if all(0 <= v <= 255 for v in vals) else [])
+        tok += ";" + rng.choice(kinds)
+    return tok
+
+
+def _canon_line(line: str) -> str:
+    """for the model an offset tensor is its integer values: drop the dtype tag"""
+    if line.startswith(("readrangeT ", "writerangeT ")):
+        toks = line.split(" ")
+        toks = [";".join(t.split(";")[:2]) if t.count(";") == 2 and t.split(";")[2] in OFF_DTYPES else t for t in toks]
+        return " ".join(toks)
+    return line
+
+
+seqcheck.DRIVER_MAP["drivers/C01.lean"] = _canon_line
 
 
 def b(x):
@@ -378,7 +401,7 @@ def replay(ctx, data) -> int:
         print("replay file has no op sequence (proof/tie breakage without failing input):", data.get("broken"))
         return 1
     real = seqcheck.exec_real(Real, case)
-    resp = ctx.run_driver(DRIVER, case)
+    resp = ctx.run_driver(DRIVER, seqcheck.to_driver(DRIVER, case))
     for l, r, d in zip(case, real, resp):
         print(f"{l}\n    real: M {r[0]} || S {r[1]}\n    lean: {d}")
     d = seqcheck.compare_case(case, real, resp)
